@@ -136,10 +136,17 @@ def run_case(case: Case):
                 out["paths"] += 1
                 out["notes"].extend(c.notes)
                 base_h = c.hyps()
-                hr = smt.solve(base_h, timeout_s=case.timeout, families=("basic",), ack_uf=case.ack_uf)
+                hr = smt.solve(base_h, timeout_s=min(case.timeout, 8.0), families=("basic",), ack_uf=case.ack_uf)
+                if hr.status == "unknown":
+                    # retry without the definedness side conditions (a weaker, cheaper twin)
+                    hr = smt.solve(list(c.assumptions) + list(c.path), timeout_s=min(case.timeout, 8.0), families=("basic",), ack_uf=case.ack_uf)
+                    if hr.status == "sat":
+                        hr.status = "sat-weak"
                 if hr.status == "unsat":
                     out["unreachable_paths"] += 1
                     continue
+                reach = hr.status
+                out.setdefault("reach", []).append(reach)
                 reach_model = hr.model if hr.status == "sat" else None
                 if outcome[0] == "exc":
                     e = outcome[1]
@@ -173,7 +180,7 @@ def run_case(case: Case):
                         for g in checks:
                             out["goals"].append({"name": g.name, "kind": "check", "status": "discharged",
                                                  "time": r.seconds / len(checks), "size": tm.size(g.term),
-                                                 "atoms": r.n_atoms, "batched": True, "path": out["paths"]})
+                                                 "atoms": r.n_atoms, "batched": True, "path": out["paths"], "reach": reach})
                         pending = []
                 for g in pending:
                     if g.term is tm.TRUE:
@@ -183,7 +190,7 @@ def run_case(case: Case):
                     h = hyps_of(g)
                     r = _solve_goal(case, h, g.term)
                     rec = {"name": g.name, "kind": "check", "time": r.seconds, "size": tm.size(g.term),
-                           "atoms": r.n_atoms, "path": out["paths"]}
+                           "atoms": r.n_atoms, "path": out["paths"], "reach": reach}
                     if r.status == "unsat":
                         rec["status"] = "discharged"
                     elif r.status == "unknown":
@@ -349,7 +356,7 @@ def summarize(prop, tier, seed, results, meta, wall):
                 st_ = g["status"]
                 if st_ == "discharged":
                     discharged += 1
-                    if not g.get("trivial"):
+                    if not g.get("trivial") and g.get("reach") == "sat":
                         distinct.add((r["case"], g["name"]))
                     if len(samples) < 6 and not g.get("trivial"):
                         samples.append({"case": r["case"], "obligation": g["name"], "verdict": "unsat",
